@@ -101,8 +101,8 @@ func Parts() []mc.Part {
 			"as queue, chain starting at height 253 (due heights cross 255 -> 256)"),
 		withStats(mc.ExplorePart("queue", New(q), 8, 9, true, rule), q,
 			"request(consumer in {A,B}, interval in {1,2,3} and (A,0), plain), block (5..7 s); blockers: random"),
-		withStats(mc.ExplorePart("queue-restarting", mc.WithRestart(New(q), "random"), 6, 7, true, rule), q,
-			"as queue, plus restart-from-genesis (export -> validation -> stores emptied -> InitGenesis) as an operation"),
+		withStats(mc.ExplorePart("queue-restarting", mc.WithBoundaryRestart(New(q), 0, "random"), 6, 7, true, rule), q,
+			"as queue, plus restart-from-genesis (export -> validation -> stores emptied -> InitGenesis) as an operation, inside a block and between two blocks (InitGenesis under the next block's height)"),
 		withStats(mc.ExplorePart("oracle", New(o), 8, 10, true, rule), o,
 			"request(A,1,oracle), request(B,1,oracle), request(A,2,oracle), request(A,1,plain), respond(active seed request, {valid seed, malformed seed, error result}), block (no response within 2 blocks = timeout); blockers: service, random"),
 	}
